@@ -20,9 +20,11 @@ import Tickit.Driver.Common
 namespace Tickit.Driver.LifeEngine
 open Tickit Tickit.Driver Tickit.Life
 
-def cfg : Cfg :=
+def cfg0 : Cfg :=
   ⟨Gen.Life.closePurges, Gen.Life.destroyClosesChildren, Gen.Life.spanExactFit, Gen.Life.mouseKeepsRoot, Gen.Life.lastPressInit,
    Gen.Life.dragForgottenOnClose, Gen.Life.snapshotRouting, Gen.Life.penCopyKeepsSrc⟩
+
+def cfg : TCfg := { base := cfg0, rootForgetsTickit := Gen.Life.rootForgetsTickit }
 
 structure DSt where
   top : Top := {}
@@ -156,6 +158,13 @@ def parseXOp (ts : List String) : Option XOp :=
   | "twaitv" :: toks => do some (.twait (← toks.mapM parseTok) true)
   | ["tcheck"] => some .tcheck
   | ["tick", ms] => do some (.tick (← int? ms))
+  | ["newtop", l, c] => do some (.newtop (← int? l) (← int? c))
+  | ["iref"] => some .iref
+  | ["iunref"] => some .iunref
+  | "ilater" :: acts => do some (.ilater (← acts.mapM parseTAct))
+  | "itimer" :: ms :: acts => do some (.itimer (← int? ms) (← acts.mapM parseTAct))
+  | ["icancel", k] => do some (.icancel (← nat? k))
+  | "itick" :: toks => do some (.itick (← toks.mapM parseTok))
   | _ => (parseOp ts).map .base
 
 /-- The liveness columns of an implementation observation: (windows alive?, pens, strings, buffers, term). -/
@@ -165,6 +174,7 @@ structure ImplDump where
   strs : List Bool
   rbs : List Bool
   term : Bool
+  inst : Bool := false
 
 def parseBits (s : String) : List Bool := if s = "-" then [] else s.toList.map (· = '1')
 
@@ -174,11 +184,16 @@ def parseDump (impl : String) : Option ImplDump :=
     let wtoks := (w.splitOn " ").filter (fun x => x ≠ "" ∧ x ≠ "W")
     let wins := wtoks.map (fun x => !(x.endsWith ":x"))
     let field (x : String) : String := ((x.splitOn " ").filter (· ≠ "")).getD 1 "-"
-    some ⟨wins, parseBits (field p), parseBits (field s), parseBits (field b), (field t).startsWith "1"⟩
+    some ⟨wins, parseBits (field p), parseBits (field s), parseBits (field b), (field t).startsWith "1", false⟩
+  | [_, w, p, s, b, t, i] =>
+    let wtoks := (w.splitOn " ").filter (fun x => x ≠ "" ∧ x ≠ "W")
+    let wins := wtoks.map (fun x => !(x.endsWith ":x"))
+    let field (x : String) : String := ((x.splitOn " ").filter (· ≠ "")).getD 1 "-"
+    some ⟨wins, parseBits (field p), parseBits (field s), parseBits (field b), (field t).startsWith "1", (field i).startsWith "1"⟩
   | _ => none
 
 /-- Specification on one implementation observation, given the application's bookkeeping after the step. -/
-def specCheck (d : DSt) (stAfter : St) (op : Op) (impl : String) : String :=
+def specCheck (d : DSt) (stAfter : St) (instRefs : Nat) (op : Op) (impl : String) : String :=
   if impl.startsWith "CRASH" then
     if d.implDead then ""
     else s!"the library died ({impl}) in a history of documented calls"
@@ -200,7 +215,7 @@ def specCheck (d : DSt) (stAfter : St) (op : Op) (impl : String) : String :=
       else match op with
         | .«end» =>
           if (impl.splitOn "leak=1").length > 1 then "allocations remain after the last reference was dropped (LeakSanitizer)"
-          else if dump.wins.any id || dump.pens.any id || dump.strs.any id || dump.rbs.any id || dump.term then
+          else if dump.wins.any id || dump.pens.any id || dump.strs.any id || dump.rbs.any id || dump.term || dump.inst then
             "an object is still alive after the application dropped every reference"
           else ""
         | _ =>
@@ -213,13 +228,24 @@ def specCheck (d : DSt) (stAfter : St) (op : Op) (impl : String) : String :=
           match held stAfter.rbs.toList (·.appRefs) dump.rbs with
           | some k => s!"buffer {k} was freed while the application holds a reference"
           | none =>
-            if stAfter.term.appRefs > 0 && !dump.term then "the terminal was freed while the application holds a reference"
+            if instRefs > 0 && !dump.inst then "the toplevel instance was freed while the application holds a reference"
+            else if stAfter.term.appRefs > 0 && !dump.term then "the terminal was freed while the application holds a reference"
             else if dump.wins.head?.getD false && !dump.term then "the terminal was freed while the root window is alive"
             else ""
 
 def crashText : UB → String
   | .mem => "CRASH exit=1"
   | .abort => "CRASH signal=6"
+
+def instRefs (top : Top) : Nat :=
+  match top.inst with
+  | some i => if i.freed then 0 else i.appRefs
+  | none => 0
+
+def dumpTop (top : Top) : String :=
+  dump top.st ++ (match top.inst with
+    | some i => s!" | I {if i.freed then 0 else 1}"
+    | none => "")
 
 def step (d : DSt) (ts : List String) (impl : String) : DSt × String × String :=
   match parseXOp ts with
@@ -230,7 +256,7 @@ def step (d : DSt) (ts : List String) (impl : String) : DSt × String × String 
     let implDeadNow := impl.startsWith "CRASH"
     match d.crashed with
     | some c =>
-      let sv := specCheck d d.top.st op impl
+      let sv := specCheck d d.top.st (instRefs d.top) op impl
       ({ d with implDead := d.implDead || implDeadNow }, c, sv)
     | none =>
       let top0 := d.top
@@ -240,19 +266,22 @@ def step (d : DSt) (ts : List String) (impl : String) : DSt × String × String 
         let logs := String.join (st.log.map (· ++ " "))
         let st := { st with log := [] }
         let top := { top with st := st }
+        let instLeft := match top.inst with
+          | some i => !i.freed
+          | none => false
         let tail := match op with
-          | .«end» => s!" leak={if anythingLeft st then 1 else 0}"
+          | .«end» => s!" leak={if anythingLeft st || instLeft then 1 else 0}"
           | _ => ""
-        let m := logs ++ res ++ dump st ++ tail
-        let sv := specCheck d st op impl
+        let m := logs ++ res ++ dumpTop top ++ tail
+        let sv := specCheck d st (instRefs top) op impl
         ({ d with top := top, implDead := d.implDead || implDeadNow }, m, sv)
       | .ub k what =>
         let c := crashText k
-        let sv := specCheck d top0.st op impl
+        let sv := specCheck d top0.st (instRefs top0) op impl
         let _ := what
         ({ d with top := top0, crashed := some c, implDead := d.implDead || implDeadNow }, c, sv)
       | .fuel =>
-        ({ d with crashed := some "MODEL-OUT-OF-FUEL", implDead := d.implDead || implDeadNow }, "MODEL-OUT-OF-FUEL", specCheck d top0.st op impl)
+        ({ d with crashed := some "MODEL-OUT-OF-FUEL", implDead := d.implDead || implDeadNow }, "MODEL-OUT-OF-FUEL", specCheck d top0.st (instRefs top0) op impl)
 
 def engine : Engine := { σ := DSt, init := {}, step := step }
 
